@@ -191,7 +191,7 @@ def directed_cases(ck):
             fl = [f for f in frames if W.range_frame_ok(sort, f)]
             for fr in fl:
                 proto = W.Case(part, sort, fr, ())
-                reps = 4 if ck.thorough else 2
+                reps = 4 if ck.thorough else (2 if sort in ("id", "c") else 1)
                 pool = list(W.FUNCS)
                 rng.shuffle(pool)
                 for rep in range(reps):
@@ -208,7 +208,7 @@ def placement_cases(ck):
     rng = ck.rng
     cases = []
     frames = W.all_frames()
-    n = ck.n(1500, 8000)
+    n = ck.n(1200, 8000)
     tries = 0
     while len(cases) < n and tries < n * 30:
         tries += 1
